@@ -556,11 +556,17 @@ pub fn join(depth: usize) -> Value {
                 sqls.push(format!("select a, b, c, d from l {kind} join r on a = c"));
                 wants.push(join_oracle(&l, &r, kind, &eq));
             }
+            // semi / anti joins over two key-ordered inputs (there is no merge join for them: H39)
+            let has = |x: &Row| r.iter().any(|y| eq(x, y) == Some(true));
+            for (q, keep) in [("a in (select c from r)", true), ("a not in (select c from r)", false), ("exists (select * from r where c = a)", true), ("not exists (select * from r where c = a)", false)] {
+                sqls.push(format!("select a, b from l where {q}"));
+                wants.push(sorted(strs(&l.iter().filter(|x| has(x) == keep).cloned().collect::<Vec<_>>())));
+            }
             // ORDER BY on a key of the other side of an outer merge join (NULL-padded rows in between must not survive as such)
             let o0 = sqls.len();
             let ordered: Vec<(&str, usize)> = vec![("left", 2), ("full", 2), ("right", 0), ("full", 0), ("inner", 2)];
             for (kind, col) in &ordered { sqls.push(format!("select a, b, c, d from l {kind} join r on a = c order by {}", if *col == 2 { "c" } else { "a" })); }
-            tried += 4 + ordered.len() as u64;
+            tried += 8 + ordered.len() as u64;
             let outs = match run(e, &sqls, &[]) { Ok(o) => o, Err(err) => return found_raw(tried, e, &sqls, &[], sqls.len() - 1, "the session to run".into(), err) };
             for (i, o) in outs.iter().enumerate().take(q0) { if let Err(err) = o { if let Some(v) = found(tried, e, &sqls, &[], i, "statement to succeed".into(), err.clone()) { return v; } } }
             for (j, (kind, col)) in ordered.iter().enumerate() {
@@ -689,8 +695,46 @@ fn and3(x: B3, y: B3) -> B3 { match (x, y) { (Some(false), _) | (_, Some(false))
 fn or3(x: B3, y: B3) -> B3 { match (x, y) { (Some(true), _) | (_, Some(true)) => Some(true), (Some(false), Some(false)) => Some(false), _ => None } }
 fn not3(x: B3) -> B3 { x.map(|b| !b) }
 
+/// SQL LIKE without an escape character: `%` = any string, `_` = any one character, everything else stands for itself
+fn like_oracle(s: &[char], p: &[char]) -> bool {
+    match p.split_first() {
+        None => s.is_empty(),
+        Some(('%', rest)) => (0..=s.len()).any(|k| like_oracle(&s[k..], rest)),
+        Some(('_', rest)) => !s.is_empty() && like_oracle(&s[1..], rest),
+        Some((c, rest)) => s.first() == Some(c) && like_oracle(&s[1..], rest),
+    }
+}
+
 pub fn expr(depth: usize) -> Value {
     let mut tried = 0u64;
+    // string predicates: LIKE / NOT LIKE over strings that contain characters with a meaning in regular expressions (H40)
+    {
+        let vals: Vec<Option<&str>> = vec![None, Some(""), Some("abc"), Some("a.c"), Some("a%c"), Some("ac"), Some("a+"), Some("aa"), Some("(a)"), Some("a|b"), Some("ABC"), Some("a\\c")];
+        let pats = ["a.c", "a_c", "a%", "%c", "%", "_", "", "a+", "(a)", "a|b", "%.%", "a\\c", "a*", "[a]c", "a%c", "^abc$", "ab_"];
+        for e in engines() {
+            let mut sqls = vec!["create table s(id int, v varchar)".to_string()];
+            sqls.push(format!("insert into s values {}", vals.iter().enumerate().map(|(i, v)| format!("({i}, {})", match v { None => "NULL".to_string(), Some(x) => format!("'{x}'") })).collect::<Vec<_>>().join(",")));
+            let q0 = sqls.len();
+            let mut wants: Vec<Vec<Vec<String>>> = vec![];
+            for p in pats {
+                let pc: Vec<char> = p.chars().collect();
+                let m = |v: &Option<&str>| v.map(|x| like_oracle(&x.chars().collect::<Vec<_>>(), &pc));
+                sqls.push(format!("select id from s where v like '{p}'"));
+                wants.push(sorted(vals.iter().enumerate().filter(|(_, v)| m(v) == Some(true)).map(|(i, _)| vec![i.to_string()]).collect()));
+                sqls.push(format!("select id from s where v not like '{p}'"));
+                wants.push(sorted(vals.iter().enumerate().filter(|(_, v)| m(v) == Some(false)).map(|(i, _)| vec![i.to_string()]).collect()));
+            }
+            tried += wants.len() as u64;
+            let outs = match run(e, &sqls, &[]) { Ok(o) => o, Err(err) => return found_raw(tried, e, &sqls, &[], sqls.len() - 1, "the session to run".into(), err) };
+            for (j, want) in wants.iter().enumerate() {
+                match &outs[q0 + j] {
+                    Ok(got) if sorted(got.clone()) == *want => {}
+                    Ok(got) => { if let Some(v) = found(tried, e, &sqls, &[], q0 + j, format!("{want:?}"), format!("{:?}", sorted(got.clone()))) { return v; } },
+                    Err(err) => { if let Some(v) = found(tried, e, &sqls, &[], q0 + j, format!("{want:?}"), format!("error: {err}")) { return v; } },
+                }
+            }
+        }
+    }
     let dom = [None, Some(0i64), Some(1), Some(2)];
     let rows: Vec<Row> = dom.iter().flat_map(|a| dom.iter().map(move |b| vec![*a, *b])).collect();
     let cmp = |op: &str, x: V, y: V| -> B3 { match (x, y) { (Some(p), Some(q)) => Some(match op { "=" => p == q, "<>" => p != q, "<" => p < q, "<=" => p <= q, ">" => p > q, _ => p >= q }), _ => None } };
